@@ -1131,6 +1131,22 @@ example :
   have : i = 0 ∨ i = 1 := by omega
   rcases this with rfl | rfl <;> decide +kernel
 
+/-- **The bound at the start in closed form.** `mu (init progs) = (T+1)·(W+2)` with `T` threads and
+`W` = 15 per send (nested sends counted), 8 per drain, 2 per wrong-type send: every case of `T` thread
+programs has returned all its calls and reached `endState` after that many fair rounds, and performs
+at most that many effective steps (failed CAS attempts included) under any schedule at all. -/
+theorem every_case_finishes_within_the_explicit_bound (progs : List (List Op)) (rounds : List (List Tid))
+    (hfair : ∀ r ∈ rounds, fairRound (init progs) r)
+    (hn : (progs.length + 1) * ((progs.map opsW).sum + 2) ≤ rounds.length) :
+    endState (run (init progs) rounds.flatten) = true ∧
+    ∀ sched, effSteps (init progs) sched ≤ (progs.length + 1) * ((progs.map opsW).sum + 2) := by
+  refine ⟨?_, fun sched => ?_⟩
+  · have := fair_schedule_reaches_the_end_state progs [] rounds hfair (by rw [← mu_init] at hn; exact hn)
+    simpa using this
+  · have := effSteps_le (init progs) sched
+    rw [mu_init] at this
+    omega
+
 end C07
 
 #print axioms C07.at_most_one_stop_accepted
@@ -1200,3 +1216,4 @@ end C07
 #print axioms C07.no_livelock_under_any_schedule
 #print axioms C07.every_op_returns_when_its_thread_is_scheduled_often_enough
 #print axioms C07.marker_is_emitted_when_threads_are_scheduled_often_enough
+#print axioms C07.every_case_finishes_within_the_explicit_bound
